@@ -12,6 +12,7 @@ CONSTANTS DevEarlyReturn,        \* process returns before clean_files when noth
           DevDepsOnSuccessOnly,  \* dependencies are recorded only for modules that loaded
           DevDepsOnExistingOnly, \* dependencies are recorded only for modules that exist (a missing module is not tracked)
           DevCreateNoNotify,     \* a Create event only runs collect_work; dependents of the new file are not restarted
+          DevRmdirNoRestart,     \* remove_source(dir) does not restart the work items that depend on a file of that directory
           Sources, Modules, DirOf, Dirs, Requires, Configs, SerKey, Eff, MaxVer, MaxSteps, MaxIdx
 
 Files == Sources \cup Modules
@@ -110,11 +111,16 @@ RemoveDir(d) ==   \* remove event on a directory -> remove_source(dir): nodes dr
   /\ Tick /\ \E f \in Files : DirOf[f] = d /\ Exists(f)
   /\ LET gone == {f \in Files : DirOf[f] = d} IN
      LET gi == {i \in Idx : Live(i) /\ slots[i].p \in gone} IN
+     LET sl1 == [i \in Idx |-> IF i \in gi THEN Vacant ELSE slots[i]] IN
+     LET em1 == IF DevDirKeepsExt THEN extmap ELSE [f \in Files |-> extmap[f] \ gi] IN
+     \* ideal: the surviving work items that depend on a file of the directory are restarted (their dependency is gone)
+     LET dependents == IF DevRmdirNoRestart THEN {} ELSE (UNION {em1[f] : f \in gone}) \cap {i \in Idx : sl1[i].st # "vacant"} IN
+     LET r == Restart(dependents, sl1, em1) IN
      /\ inp' = [f \in Files |-> IF f \in gone THEN NoVer ELSE inp[f]]
-     /\ slots' = [i \in Idx |-> IF i \in gi THEN Vacant ELSE slots[i]]
+     /\ slots' = r.sl
      /\ \E ord \in SetToSeqs(gi) : free' = ord \o free   \* HashMap iteration order in remove_source: ANY order (SequencesExt)
      /\ removeq' = removeq \cup {slots[i].p : i \in gi}
-     /\ extmap' = IF DevDirKeepsExt THEN extmap ELSE [f \in Files |-> extmap[f] \ gi]
+     /\ extmap' = r.em
   /\ UNCHANGED <<out, lasthash, cfg, panicked>>
 
 ChangeConfig ==
